@@ -6,3 +6,4 @@ import SPModel.Comb
 import SPModel.Text
 import SPModel.Design
 import SPModel.Spec
+import SPModel.Api
